@@ -83,6 +83,14 @@ Qed.
 
 (* ------------------------------------------------------------------ the spec loop *)
 
+Lemma filter_none {A} (f : A -> bool) l : (forall x, In x l -> f x = false) -> filter f l = [].
+Proof.
+  induction l as [|x l IH]; intro H; [reflexivity|]. cbn. rewrite (H x (or_introl eq_refl)).
+  apply IH. intros; apply H; now right.
+Qed.
+
+
+
 Lemma rfb_none bkeys t : forall count loops acc,
   fst (fst (remove_from_backend bkeys t None count loops acc)) =
   rev acc ++ filter (fun k => negb (ks_mem k t)) bkeys.
@@ -94,39 +102,20 @@ Proof.
     + rewrite IH. cbn [rev]. now rewrite <- app_assoc.
 Qed.
 
-Lemma rfb_big bkeys t n : forall count loops acc,
-  count + N.of_nat (length (filter (fun k => negb (ks_mem k t)) bkeys)) <= n ->
+(* with a limit: exactly the untouched keys among the first (n - loops) backend keys *)
+Lemma rfb_some bkeys t n : forall count loops acc, loops <= n ->
   fst (fst (remove_from_backend bkeys t (Some n) count loops acc)) =
-  rev acc ++ filter (fun k => negb (ks_mem k t)) bkeys.
+  rev acc ++ filter (fun k => negb (ks_mem k t)) (firstn (N.to_nat (n - loops)) bkeys).
 Proof.
-  induction bkeys as [|k r IH]; intros count loops acc H.
-  - cbn. now rewrite app_nil_r.
-  - cbn [remove_from_backend filter] in *.
-    destruct (count =? n) eqn:E.
-    + apply N.eqb_eq in E. subst count.
-      destruct (ks_mem k t); cbn [negb] in *.
-      * assert (Z : length (filter (fun k0 => negb (ks_mem k0 t)) r) = 0%nat) by lia.
-        apply length_zero_iff_nil in Z. rewrite Z. cbn. now rewrite app_nil_r.
-      * cbn [length] in H. lia.
-    + apply N.eqb_neq in E. destruct (ks_mem k t); cbn [negb] in *.
-      * apply IH. exact H.
-      * rewrite IH by (cbn [length] in H; lia). cbn [rev]. now rewrite <- app_assoc.
-Qed.
-
-Lemma rfb_first bkeys t n : forall count loops acc,
-  (forall k, In k bkeys -> ks_mem k t = false) -> count <= n ->
-  fst (fst (remove_from_backend bkeys t (Some n) count loops acc)) =
-  rev acc ++ firstn (N.to_nat (n - count)) bkeys.
-Proof.
-  induction bkeys as [|k r IH]; intros count loops acc H L.
+  induction bkeys as [|k r IH]; intros count loops acc L.
   - cbn. now rewrite firstn_nil, app_nil_r.
-  - cbn [remove_from_backend]. destruct (count =? n) eqn:E.
+  - cbn [remove_from_backend]. destruct (loops =? n) eqn:E.
     + apply N.eqb_eq in E. subst. rewrite N.sub_diag. cbn. now rewrite app_nil_r.
-    + apply N.eqb_neq in E. rewrite (H k (or_introl eq_refl)).
-      assert (H' : forall k0, In k0 r -> ks_mem k0 t = false) by (intros; apply H; now right).
-      rewrite (IH _ _ _ H') by lia.
-      replace (N.to_nat (n - count)) with (S (N.to_nat (n - (count + 1)))) by lia.
-      cbn [firstn rev]. now rewrite <- app_assoc.
+    + apply N.eqb_neq in E.
+      replace (N.to_nat (n - loops)) with (S (N.to_nat (n - (loops + 1)))) by lia.
+      cbn [firstn filter]. destruct (ks_mem k t); cbn [negb].
+      * apply IH. lia.
+      * rewrite IH by lia. cbn [rev]. now rewrite <- app_assoc.
 Qed.
 
 (* ------------------------------------------------------------------ small list facts *)
@@ -148,6 +137,11 @@ Proof. intro E. apply keqb_eq in E. now subst. Qed.
 Lemma In_firstn {A} (x : A) n l : In x (firstn n l) -> In x l.
 Proof. revert l; induction n as [|n IH]; intros [|y l]; cbn; try tauto. intros [->|H]; [now left | right; now apply IH]. Qed.
 
+Lemma In_skipn' {A} (x : A) n : forall l, In x (skipn n l) -> In x l.
+Proof.
+  induction n as [|n IH]; intros l H; [exact H|]. destruct l as [|y l]; [exact H|].
+  right. now apply IH.
+Qed.
 Lemma kmem_firstn_in k n l : kmem k (firstn n l) = true -> kmem k l = true.
 Proof.
   intro H. apply kmem_in in H. apply kmem_in. eapply In_firstn. exact H.
@@ -169,6 +163,9 @@ Proof.
   - rewrite (H x (or_introl eq_refl) F). cbn. lia.
   - destruct (g x); cbn; lia.
 Qed.
+
+Lemma filter_length_le' {A} (f : A -> bool) l : (length (filter f l) <= length l)%nat.
+Proof. induction l as [|x l IH]; [reflexivity|]. cbn. destruct (f x); cbn; lia. Qed.
 
 Lemma wf_fold_add l (s : kset) : wf s -> wf (fold_left (fun acc k => ks_add k acc) l s).
 Proof. revert s; induction l as [|k l IH]; intros s W; [exact W|]. cbn. apply IH. unfold ks_add. now apply wf_put. Qed.
@@ -209,7 +206,7 @@ Section SpecClear.
   Lemma spec_clear_all limit cur' tch' loops all :
     (limit = None \/
      exists n, limit = Some n /\
-       N.of_nat (length (filter (fun k => negb (ks_mem k tch)) (matching_keys p bk))) <= n) ->
+       forall k, In k (skipn (N.to_nat n) (matching_keys p bk)) -> ks_mem k tch = true) ->
     spec_clear cur bk tch p limit = (cur', tch', loops, all) ->
     cur' = om_filter (fun k => negb (has_prefix p k)) cur /\ wf tch' /\
     forall k, ks_mem k tch' = ks_mem k tch || (has_prefix p k && om_mem k bk).
@@ -221,7 +218,11 @@ Section SpecClear.
     { pose proof (f_equal (fun x => fst (fst x)) R) as R'. cbn in R'. rewrite <- R'.
       destruct Big as [->|(n & -> & L)].
       - now rewrite rfb_none.
-      - now rewrite rfb_big by (cbn; lia). }
+      - rewrite rfb_some by lia. rewrite N.sub_0_r. cbn [rev app].
+        rewrite <- (firstn_skipn (N.to_nat n) (matching_keys p bk)) at 2.
+        rewrite filter_app.
+        rewrite (filter_none _ (skipn (N.to_nat n) (matching_keys p bk))); [now rewrite app_nil_r|].
+        intros k I. now rewrite (L k I). }
     assert (KD : forall k, kmem k del = has_prefix p k && om_mem k bk && negb (ks_mem k tch)).
     { intro k. rewrite D. rewrite kmem_filter by apply keqb_congr. rewrite kmem_matching by exact Wb.
       now destruct (ks_mem k tch), (has_prefix p k), (om_mem k bk). }
@@ -243,8 +244,7 @@ Section SpecClear.
   Qed.
 
   Lemma spec_clear_first n cur' tch' loops all :
-    (forall k, has_prefix p k = true -> ks_mem k tch = true ->
-               om_mem k cur = false /\ om_mem k bk = false) ->
+    (forall k, has_prefix p k = true -> ks_mem k tch = true -> om_mem k cur = false) ->
     spec_clear cur bk tch p (Some n) = (cur', tch', loops, all) ->
     let del := firstn (N.to_nat n) (matching_keys p bk) in
     cur' = om_del_list del cur /\ wf tch' /\
@@ -253,18 +253,28 @@ Section SpecClear.
     intros A. unfold spec_clear. fold (matching_keys p bk). fold (matching_keys p tch).
     destruct (remove_from_backend (matching_keys p bk) tch (Some n) 0 0 []) as [[del lp] al] eqn:R.
     intros [= <- <- _ _].
-    assert (D : del = firstn (N.to_nat n) (matching_keys p bk)).
+    assert (D : del = filter (fun k => negb (ks_mem k tch)) (firstn (N.to_nat n) (matching_keys p bk))).
     { pose proof (f_equal (fun x => fst (fst x)) R) as R'. cbn in R'. rewrite <- R'.
-      rewrite rfb_first; [now rewrite N.sub_0_r | | lia].
-      intros k I. apply kmem_in in I. rewrite kmem_matching in I by exact Wb.
-      apply andb_prop in I as [P M]. destruct (ks_mem k tch) eqn:T; [|reflexivity].
-      destruct (A k P T) as [_ X]. congruence. }
-    cbn zeta. rewrite <- D. split; [|split].
-    - f_equal. apply om_del_list_noop; [exact Wc|].
-      intros k I. rewrite kmem_matching in I by exact Wt. apply andb_prop in I as [P T].
-      now apply A.
+      rewrite rfb_some by lia. now rewrite N.sub_0_r. }
+    cbn zeta. set (fs := firstn (N.to_nat n) (matching_keys p bk)) in *.
+    assert (FP : forall k, kmem k fs = true -> has_prefix p k = true).
+    { intros k I. apply kmem_firstn_in in I. rewrite kmem_matching in I by exact Wb.
+      now apply andb_prop in I as [P _]. }
+    assert (KD : forall k, kmem k del = kmem k fs && negb (ks_mem k tch)).
+    { intro k. rewrite D. rewrite kmem_filter by apply keqb_congr. apply andb_comm. }
+    split; [|split].
+    - apply om_ext; [now apply wf_del_list, wf_del_list | now apply wf_del_list |].
+      intro k. rewrite !om_get_del_list by (try apply wf_del_list; exact Wc).
+      rewrite KD, kmem_matching by exact Wt. fold (ks_mem k tch).
+      destruct (kmem k fs) eqn:F; cbn [andb].
+      + rewrite (FP k F). cbn [andb]. destruct (ks_mem k tch) eqn:T; cbn [negb]; [|reflexivity].
+        specialize (A k (FP k F) T). unfold om_mem in A. now destruct (om_get k cur).
+      + destruct (has_prefix p k && ks_mem k tch) eqn:PT; [|reflexivity].
+        apply andb_prop in PT as [P T]. specialize (A k P T). unfold om_mem in A.
+        now destruct (om_get k cur).
     - now apply wf_fold_add.
-    - intro k. now apply ks_mem_fold_add.
+    - intro k. rewrite ks_mem_fold_add by exact Wt. rewrite KD.
+      now destruct (kmem k fs), (ks_mem k tch).
   Qed.
 End SpecClear.
 
